@@ -1,7 +1,8 @@
 (* The executable error bound E of C11 ("within a rigorous floating-point error bound").
    Exact dyadic arithmetic on Flocq's [float radix2] (mantissa * 2^exponent, both Z), so it
    runs under vm_compute; the SAME function is the tolerance of the correspondence verdict
-   (RmsRun.v) and the subject of the drift theorem (RmsErrProofs.v).
+   (RmsRun.v) and the subject of the drift theorem (RmsErrProofs.v: one step on reals;
+   RmsDriftProofs.v: the induction along the IEEE run, `c11_drift_bound`).
 
    One channel.  q = x*x exact square entering, r = exact square leaving (N steps old, 0 while the
    window is still zero-padded), S = exact sum of the squares in the window, T = bound on
